@@ -28,6 +28,7 @@ SLOTS = [
 HEADER = '''from collections import defaultdict
 from typing import Any, Callable, DefaultDict, Dict, Iterator, Generator, List, NewType, Optional, Set, Tuple, Type, Union
 from vf.fixtures.hier import A, B, C, D, M, Outer, MyList, MyDict, NT, func, lam, make_gen, MySet, MyTuple
+from vf.fixtures.hier import X1, X2, X3, X4, X5, X6, R1, R2, E1, E2, E3, E4, E5, E6
 from vf.fixtures.helpers import pick
 
 NoneType = type(None)
@@ -186,7 +187,7 @@ class Mod:
                 s = rng.choice(SLOTS)
                 p.ann, p.vals = s["ann"], list(s["vals"])
             else:
-                n = rng.choice([1, 1, 2, 3])
+                n = rng.choice([1, 1, 2, 3]) if not self.opts.get("wide") else rng.choice([1, 2, 3, 6, 7, 8])
                 p.vals = [prefix_keys(e, f"f{f.idx}") if unique else e for e in rng.sample(self.value_pool(), n)]
             if p.default == "DEFAULT":
                 if rng.random() < 0.4 and (p.ann is None or p.ann.startswith("Optional") or rng.random() < 0.5):
